@@ -6,7 +6,7 @@ import msuite
 PID = 'C14'
 TAGS = ['tbegin', 'tick', 'tbodyend', 'tend', 'caught', 'log']
 RULE = ('1-3 tickers (some in volatile child tasks closed at the end of their scope while the run continues) (interval or delay; periods 0, 1/2, 1, 2; 1-5 iterations) whose body runs take shorter than, exactly, or '
-        'longer than the period (durations drawn from the same grid), started at times 0/1/2, below zero (grids and pauses that hit date 0), near 2^34 / 2^40, or after a delay, alone, nested in '
+        'longer than the period (durations drawn from the same grid), started at times 0/1/2 (a fifth of them as a ticker object that is made some time before its loop begins), below zero (grids and pauses that hit date 0), near 2^34 / 2^40, or after a delay, alone, nested in '
         'until()-scopes with deadlines, or next to other tickers and a spinner activity; IntervalExceeded and ValueError '
         '(negative period) are caught and logged; exact rational times; the same programs once more under `python -O` (judged only: the documented errors are not assertions); non-trivial = at least 3 ticks')
 
@@ -22,6 +22,10 @@ def family(rng):
         if rng.random() < 0.3:
             body.append(['log', 10 + i])
         stmt = [kind, period, rng.randint(1, 5)] + body
+        if period >= 0 and rng.random() < 0.2:
+            # the ticker object exists for a while before its loop begins (handed to a worker, kept in a variable): the grid starts
+            # where the iteration starts
+            stmt = [kind + 'later', period, stmt[2], rng.choice([F(1, 2), 1, 2, 3, 5])] + body
         stmt = ['try', ['body', stmt], ['handler', ['pats', 'intervalExceeded', 'anyException'], ['body', ['log', 90 + i]]]]
         prog = [['sleep', rng.choice([0, 0, 1, F(1, 2)])]]
         r = rng.random()
